@@ -14,7 +14,7 @@
 
 From Coq Require Import String List NArith Bool Arith.
 From Nexus Require Import Conc.SkelTypes Conc.Machine Conc.MachineFacts Conc.Shutdown
-  Conc.ShutdownWitness Conc.ShutdownProofs Conc.ShutdownLock Conc.ShutdownFlag Conc.ShutdownWg Conc.Skeleton Conc.SkelObligationsC06 gen.GenSkeleton.
+  Conc.ShutdownWitness Conc.ShutdownProofs Conc.ShutdownLock Conc.ShutdownFlag Conc.ShutdownWg Conc.ShutdownCloser Conc.Skeleton Conc.SkelObligationsC06 gen.GenSkeleton.
 Import ListNotations.
 
 (** ** Tie to the source, re-established on every run *)
@@ -90,6 +90,23 @@ Theorem close_no_panic_wait_group :
     wgs s WHandlers <> 0.
 Proof. exact ShutdownWg.wg_handlers_never_negative. Qed.
 Print Assumptions close_no_panic_wait_group.
+
+
+(** Once realm.close is past [waitHandlers.Wait()] (positions 6..17 of
+    [realm_close_seq]: ending the meta session, stopping dealer and broker,
+    closing the shut-down peers, stopping the realm goroutine), the closed flag
+    is set, the counter is zero, NO session handler or attach-in-progress is
+    alive and none can appear any more — for any number of sessions. *)
+Theorem handlers_gone_after_wait :
+  forall (scr : nat -> list msg * bool) (K : nat) (p : params) (s : sstate) (l : L),
+    sreach all_fixed scr K (init p) s -> outcome s = None ->
+    In l (procs s) -> 6 <= cpos l -> cpos l <= 17 ->
+    vars s VRealmClosed = 1%N /\
+    wgs s WHandlers = 0 /\
+    (forall l', In l' (procs s) -> live l' = false) /\
+    (forall l', In l' (procs s) -> joining l' = false).
+Proof. exact ShutdownCloser.handlers_gone_after_wait. Qed.
+Print Assumptions handlers_gone_after_wait.
 
 Theorem closed_flag_monotone :
   forall (scr : nat -> list msg * bool) (K : nat) (s : sstate) e s',
